@@ -65,7 +65,7 @@ class GenModel(nn.Module):
         return outs[0] if len(outs) == 1 else tuple(outs)
 
 
-N_DATA = {"loginv": 1, "grouplog": 1, "act": 2, "poly": 3, "mixed": 2, "between": 1, "scalar": 0, "prior": 0}
+N_DATA = {"loginv": 1, "grouplog": 1, "act": 2, "poly": 3, "mixed": 2, "between": 1, "scalar": 0, "prior": 0, "ops2": 2}
 
 
 def _as_group(p, ps):
@@ -103,6 +103,25 @@ def _resid(rs, P, kinds, data):
     elif t == "between":
         G = P[rs["p"]]
         out = (G[:-1].Inv() @ G[1:] @ data[0]).Log().tensor()
+    elif t == "ops2":
+        # the remaining operators of the documented set: Adj, AdjT, Retr, matrix(), Jinvp (data[0]: algebra element,
+        # data[1]: a target of the output's shape)
+        G = _as_group(P[rs["p"]], kinds[rs["p"]])
+        a = data[0]
+        op = rs["op"]
+        if op == "adj":
+            out = G.Adj(a).tensor()
+        elif op == "adjT":
+            out = G.AdjT(a).tensor()
+        elif op == "retr":
+            out = G.Retr(a).Log().tensor()
+        elif op == "plus":
+            out = (G + a).Log().tensor()
+        elif op == "matrix":
+            out = G.matrix().flatten(-2)
+        else:
+            out = G.Jinvp(a).tensor()
+        out = out - data[1]
     elif t == "scalar":
         out = P[rs["p"]].reshape(1)
     elif t == "prior":
@@ -152,6 +171,12 @@ def make_data(spec, seed, dtype):
         elif t == "between":
             ps = spec["params"][rs["p"]]
             data.append(rand_grp(seed, ("d", j), (ps["n"] - 1,), ps["fam"], dtype, 0.3))
+        elif t == "ops2":
+            ps = spec["params"][rs["p"]]
+            shape = () if ps["n"] == 0 else (ps["n"],)
+            data.append(rand_alg(seed, ("d", j, "a"), shape, ps["fam"], dtype, 0.6))
+            od = {"matrix": {"SO3": 9, "SE3": 16, "RxSO3": 16, "Sim3": 16}[ps["fam"]]}.get(rs["op"], refmath.ADIM[ps["fam"]])
+            data.append(rng.randn(seed, ("d", j, "tgt"), shape + (od,), dtype, 0.3))
     return tuple(data)
 
 
@@ -163,8 +188,8 @@ def gen_spec(r, prop, allow_frozen=True):
     Jacobians as truncated series, so 'J is the true Jacobian' is not promised there."""
     fams = ["SO3", "SE3", "RxSO3", "Sim3"]
     exact = ["SO3", "SE3", "RxSO3"] if prop == "C07" else fams
-    arch = r.choice(["loginv", "grouplog", "act", "poly", "mixed", "between", "two", "two", "scalar"] if prop == "C08"
-                    else ["loginv", "grouplog", "act", "poly", "mixed", "between", "two", "two", "two"])
+    arch = r.choice(["loginv", "grouplog", "act", "poly", "mixed", "between", "two", "two", "scalar", "ops2"] if prop == "C08"
+                    else ["loginv", "grouplog", "act", "poly", "mixed", "between", "two", "two", "two", "ops2", "ops2"])
     nmax = 3 if prop == "C08" else 2
     params, residuals = [], []
 
@@ -203,11 +228,18 @@ def gen_spec(r, prop, allow_frozen=True):
             for nm, ps in trio:
                 params.append(ps); kw[nm] = len(params) - 1
             add_resid("mixed", npts=r.randint(2, 3), **kw)
+        elif tpl == "ops2":
+            op = r.choice(["adj", "adjT", "retr", "plus", "matrix", "jinvp"])
+            kind = r.choice(["alg", "grp"])
+            # Retr / + / Jinvp on sim3 go through the truncated series; C07 keeps to the exact families there
+            fam_ok = exact if (prop == "C07" and op in ("retr", "plus", "jinvp")) else (fams if kind == "grp" else exact)
+            params.append(lie_param(kind, fam=r.choice(fam_ok)))
+            add_resid("ops2", p=len(params) - 1, op=op)
         elif tpl == "scalar":
             params.append({"kind": "euclid", "k": 1, "n": 0}); add_resid("scalar", p=0)
 
     if arch == "two":
-        a, b = r.choice(["loginv", "grouplog", "act", "poly"]), r.choice(["loginv", "grouplog", "act", "poly", "between"])
+        a, b = r.choice(["loginv", "grouplog", "act", "poly", "ops2"]), r.choice(["loginv", "grouplog", "act", "poly", "between", "ops2"])
         one(a)
         if r.random() < 0.3 and params[0]["kind"] != "euclid":
             add_resid("act", p=0, npts=2)           # one parameter feeding two residuals
